@@ -67,7 +67,12 @@ class SplitMux(Spawner):
 
     def on_error(self, c, q):
         st = c.states[0]
-        return [('frame', c.frame(q, st, c.k0))]
+        out = [('frame', c.frame(q, st, c.k0))]
+        if c.pid == 'C03':
+            # C03: a mux error is not a completion: the open segment of the key stays open, so what the operator remembers about it stays
+            (m0, v0), (m1, v1) = c.slot0(st), c.slot(q, st)
+            out.append(('open_segment_kept_on_error', And(m1 == m0, v1 == v0)))
+        return out
 
 
 # ================================================================================================ time_split (C07)
@@ -138,7 +143,14 @@ class TimeSplitMux(Spawner):
 
     def on_error(self, c, q):
         s_start, s_last = c.states
-        return [('frame.start', c.frame(q, s_start, c.k0)), ('frame.last', c.frame(q, s_last, c.k0))]
+        out = [('frame.start', c.frame(q, s_start, c.k0)), ('frame.last', c.frame(q, s_last, c.k0))]
+        if c.pid == 'C03':
+            # C03: a mux error is not a completion: the open window of the key stays open, so its reference timestamps stay (known finding KF1:
+            # the handler deletes them, and the next item of the key is delivered to a window that is never created)
+            (a0, b0), (a1, b1) = c.slot0(s_start), c.slot(q, s_start)
+            (c0, d0), (c1, d1) = c.slot0(s_last), c.slot(q, s_last)
+            out.append(('open_window_kept_on_error', And(a1 == a0, b1 == b0, c1 == c0, d1 == d0)))
+        return out
 
 
 # ================================================================================================ group_by (C04)
